@@ -1,6 +1,6 @@
 (* C05 - After unschedule/remove/stop returns, the removed handler is never called again. *)
 Require Import WD.Base.Prelude WD.Model.Observer WD.Proofs.ObserverProofs WD.Proofs.ObserverInv WD.Proofs.ObserverRet
-  WD.Proofs.ObserverDisp WD.Proofs.ObserverLive WD.Proofs.ObserverExamples.
+  WD.Proofs.ObserverDisp WD.Proofs.ObserverLive WD.Proofs.ObserverEm WD.Proofs.ObserverExamples.
 
 (* In every run: if a callback (h,w,_) occurs after a removal event that covers (h,w) - the mutation of
    remove_handler_for_watch (GRemoved), unschedule / a failed start (GRemovedW), unschedule_all / stop
@@ -80,13 +80,53 @@ Theorem C05_exited_stable : forall e s l s', exited_at e s -> step s l = Some s'
 Proof. exact exited_stable. Qed.
 Print Assumptions C05_exited_stable.
 
-(* Emitter half, still partial: C05_unschedule_joins + C05_join_means_exited + C05_exited_emitter_silent give
-   "unschedule stops and joins the emitter it removed, join returns only for an exited or never started
-   thread, an exited thread never puts and stays exited (C05_exited_stable)"; not proved: that a removed, never started emitter is never started
-   later (start() only starts emitters of the registry, under the lock). *)
+(* EMITTER HALF.  [GUnsched t w e] = unschedule(w) by t took emitter e out of the registry; [GEmJoin t' e ok] = a
+   join of e returned (ok = false: the thread was never started).  By C05_unschedule_joins the removing call
+   joins e before it releases the lock and returns.  In every run: after e was removed and joined, e never puts
+   an event again - including the case of a removed, NEVER STARTED emitter, which is never started later. *)
+Theorem C05_emitter_removed_joined_never_puts : forall s, reachable s ->
+  forall a e w ev b2 t w0 b1 t' ok, glog s = a ++ GPut e w ev :: b2 ++ GUnsched t w0 e :: b1 ->
+    In (GEmJoin t' e ok) b2 -> False.
+Proof. exact removed_joined_never_puts. Qed.
+Print Assumptions C05_emitter_removed_joined_never_puts.
+
+(* The invariant behind it.  [Unreg s e]: e is not in the registry and no continuation holds an instruction that
+   would start or register it.  It holds from the removal on, in every reachable state ... *)
+Theorem C05_unscheduled_emitter_unregistered : forall s, reachable s ->
+  forall t w e, In (GUnsched t w e) (glog s) -> Unreg s e.
+Proof. exact unscheduled_emitter_unregistered. Qed.
+Print Assumptions C05_unscheduled_emitter_unregistered.
+
+(* ... it is stable, and together with "not running" (never started or exited) it is stable too: a retired
+   emitter stays retired along every run and can take no step (at most one live emitter per watch outside the
+   lock owner's pending stop/join). *)
+Theorem C05_unregistered_stable : forall e s l s', Unreg s e -> step s l = Some s' -> Unreg s' e.
+Proof. exact unregistered_stable. Qed.
+Print Assumptions C05_unregistered_stable.
+
+Theorem C05_retired_stable : forall e s l s', Retired s e -> step s l = Some s' -> Retired s' e.
+Proof. exact retired_stable. Qed.
+Print Assumptions C05_retired_stable.
+
+Theorem C05_retired_silent : forall e s l, Retired s e -> em_of l = Some e -> step s l = None.
+Proof. exact retired_silent. Qed.
+Print Assumptions C05_retired_silent.
+
+(* Return-label form of the emitter half.  Still a Definition; what is left is purely structural and of the same
+   kind as the ret-invariant behind C05_full: "a non-raised GRet t (CUnschedule w) is preceded, since the begin of
+   that call, by t's own GUnsched t w e0 and GEmJoin t e0 _" (program order of `body`, cf. C05_unschedule_joins).
+   With it, C05_emitter_removed_joined_never_puts gives: no GPut e0 after that Return. *)
 Definition C05_emitter_full : Prop := forall s, reachable s ->
   forall l3 e w ev l2 t l1, glog s = l3 ++ GPut e w ev :: l2 ++ GRet t (CUnschedule w) false :: l1 ->
-    exists la lb, l1 = la ++ GRemovedW w :: lb /\ In (GEmNew e w) (l2 ++ GRet t (CUnschedule w) false :: la).
+    exists la e0 lb, l1 = la ++ GUnsched t w e0 :: lb /\ (exists ok, In (GEmJoin t e0 ok) la) /\ e <> e0.
+
+Example C05_emitter_nonvacuous :
+  option_map (fun s => (filter (fun g => match g with GUnsched _ _ _ | GEmJoin _ _ _ => true | _ => false end) (glog s),
+                        emitters s, map epcs (ems s), dstarted s,
+                        step s (LECheck 0%nat), step s (LEPut 0%nat 7%N)))
+             (run init tr_unschedule_unstarted)
+  = Some ([GEmJoin (TA 0) 0%nat false; GUnsched (TA 0) 2%N 0%nat], [], [ENew], true, None, None).
+Proof. vm_compute. reflexivity. Qed.
 
 Example C05_nonvacuous :
   option_map (fun s => (delivered 1%N 2%N s, dequeued 2%N s, existsb (fun g => match g with GRemoved 1%N 2%N => true | _ => false end) (glog s)))
